@@ -20,7 +20,7 @@ func init() {
 	register(func() {
 		engine.Register(&engine.Check{
 			ID: "C11", Level: "exploration", Risky: true,
-			Rule: "the (Go type, value) space of C12 (generated one-/two-field structs over field types x tag options, plain and wrapped types, compiled seeds incl. named, recursive and unsupported types) x 4 routes {direct Fold->Unfolder, via JSON, via UBJSON, via CBOR encoder+parser}; the value is folded and unfolded into a fresh variable of the same type with the real library; oracle: the documented-mapping model of the result equals that of the original (nil and empty slices/maps identified, omitted-when-empty members may be absent), fields the mapping does not transfer are zero in the result, and types the models call unsupported are refused with an error by Fold, NewUnfolder or SetTarget - never a panic, fatal error or silent difference; a case = (type, value, route); non-trivial = composite type",
+			Rule:        "the (Go type, value) space of C12 (generated one-/two-field structs over field types x tag options, plain and wrapped types, compiled seeds incl. named, recursive and unsupported types) x 4 routes {direct Fold->Unfolder, via JSON, via UBJSON, via CBOR encoder+parser}; the value is folded and unfolded into a fresh variable of the same type with the real library; oracle: the documented-mapping model of the result equals that of the original (nil and empty slices/maps identified, omitted-when-empty members may be absent), fields the mapping does not transfer are zero in the result, and types the models call unsupported are refused with an error by Fold, NewUnfolder or SetTarget - never a panic, fatal error or silent difference; a case = (type, value, route); non-trivial = composite type",
 			Assumptions: []string{"types limited to reflect.StructOf + compiled seeds; struct types with more than 2 (thorough: 3) fields are not generated", "interface-typed parts are compared through the value model (generic data comes back as map[string]interface{} / []interface{} / wider numbers)"},
 			Families:    func(tier string) []engine.Family { return goFamilies(tier, c11Body) },
 			Require:     []string{"roundtrips_compared", "refusals_checked"},
